@@ -584,6 +584,41 @@ class Func:
                 work.append(t)
         return True, []
 
+    def last_writers(self, bid, idx, classify):
+        """May-analysis: the set of labels classify(expr) (not None) of the
+        elements that can be the most recent labelled element on some path
+        from entry to just before (bid, idx); 'entry' if none on some path."""
+        succ = self.succs()
+        out = {}
+        inn = {self.entry: {'entry'}}
+        work = [self.entry]
+        n = 0
+        while work:
+            b = work.pop()
+            n += 1
+            if n > 20000:
+                raise AnalysisBroken('last_writers did not converge in ' + self.qname)
+            st = set(inn.get(b, ()))
+            for ln, ex in self.blocks[b]['elems']:
+                k = classify(ex)
+                if k is not None:
+                    st = {k}
+            if out.get(b) == st:
+                continue
+            out[b] = st
+            for t, l in succ.get(b, ()):
+                old = inn.get(t, set())
+                new = old | st
+                if new != old or t not in out:
+                    inn[t] = new
+                    work.append(t)
+        st = set(inn.get(bid, ()))
+        for j in range(idx):
+            k = classify(self.blocks[bid]['elems'][j][1])
+            if k is not None:
+                st = {k}
+        return st
+
     def dominated_by_elem(self, bid, idx, pred_elem):
         """Every path from entry to (bid, idx) contains an element satisfying
         pred_elem before reaching the site."""
